@@ -12,9 +12,41 @@ package qos
 //@   modifies nothing
 //@   sets relQoS = relQoS + 1
 
+// ---- manager.go: the control-plane writer of the token buckets (C19: "the policy set through
+// the control plane is the one enforced", "a rate of zero means unlimited") ----
+//
+// The kernel enforces what is in qos_egress / qos_ingress (bpf/qos_ratelimit.c reads rate_bps,
+// burst_bytes, tokens, last_update of the entry keyed by the subscriber address). A successful
+// SetSubscriberQoS hands one bucket per loaded map to the kernel (bpfPuts counts the Put calls)
+// and the buckets carry exactly the requested rates (0 stays 0 = unlimited), a burst of at least
+// one byte (the requested one when given), a full bucket and a zero clock. SetSubscriberPolicy
+// applies the named policy through exactly one such call with the policy's own rates.
+//@ type Manager
+//@   owns subscribersMu: subscribers
+
+//@ func (m *Manager) SetSubscriberQoS
+//@   requires qos != nil
+//@   modifies m.subscribers
+//@   ghost bpfPuts mathint = 0
+//@   ensures err == nil ==> bpfPuts == ite(m.qosEgress != nil, 1, 0) + ite(m.qosIngress != nil, 1, 0)
+//@   ensures err == nil ==> egressTB.RateBPS == qos.DownloadBPS && ingressTB.RateBPS == qos.UploadBPS
+//@   ensures err == nil ==> egressTB.BurstBytes >= 1 && egressTB.Tokens == egressTB.BurstBytes && egressTB.LastUpdate == 0
+//@   ensures err == nil ==> ingressTB.BurstBytes >= 1 && ingressTB.Tokens == ingressTB.BurstBytes && ingressTB.LastUpdate == 0
+//@   ensures err == nil && qos.BurstBytes != 0 ==> egressTB.BurstBytes == qos.BurstBytes
+//@   ensures err == nil ==> egressTB.Priority == qos.Priority && ingressTB.Priority == qos.Priority
+//@   sets qosSets = qosSets + 1
+//@   sets lastDown = qos.DownloadBPS
+//@   sets lastUp = qos.UploadBPS
+//@   sets lastBurst = qos.BurstBytes
+
 //@ func (m *Manager) SetSubscriberPolicy
-//@   trusted touches the QoS manager's own maps and kernel maps only
-//@   modifies nothing
+//@   modifies m.subscribers
+//@   ghost qosSets mathint = 0
+//@   ghost lastDown mathint = 0 - 1
+//@   ghost lastUp mathint = 0 - 1
+//@   ghost lastBurst mathint = 0 - 1
+//@   ensures err == nil ==> qosSets == 1 && policy != nil && lastDown == policy.DownloadBPS && lastUp == policy.UploadBPS && lastBurst == policy.BurstSize
+//@   ensures qosSets <= 1
 
 // ---- derived key (C06): qos_egress / qos_ingress are looked up with ip->daddr /
 // ip->saddr as loaded from the frame (bpf/qos_ratelimit.c), so the key word must
